@@ -89,7 +89,7 @@ FREE_SETS = ('vects', 'avect', 'abc')
 
 @st.composite
 def roundtrip_cases(draw):
-    c = draw(gens.cells())
+    c = draw(gens.cells(scaled=True))
     compat = c['rot'] is None
     s1 = draw(st.sampled_from(LAMMPS_SETS if compat else ('vects', 'avect')))
     s2 = draw(st.sampled_from(LAMMPS_SETS))
@@ -183,7 +183,7 @@ def oracle_getters(case):
 
 @st.composite
 def getters_cases(draw):
-    c = draw(gens.cells())
+    c = draw(gens.cells(scaled=True))
     return {'cell': c, 'build': draw(st.sampled_from(['vects', 'avect'])), 'aslist': draw(st.booleans())}
 
 
@@ -191,7 +191,7 @@ def getters_cases(draw):
 
 @st.composite
 def posmaps_cases(draw):
-    c = draw(gens.cells())
+    c = draw(gens.cells(scaled=True))
     shape = draw(st.sampled_from(['1', 'N', 'MN']))
     if shape == '1':
         pts = draw(gens.relpoints(1, 1))[0]
@@ -256,7 +256,7 @@ def inside_cases(draw):
         coord = st.sampled_from([0.0, 1.0, 0.5, 0.25, -0.25, 1.25, 0.0, 1.0])
         pts = draw(st.lists(st.lists(coord, min_size=3, max_size=3), min_size=1, max_size=8))
         return {'cell': c, 'rel': pts, 'dyadic': True, 'inclusive': draw(st.booleans()), 'aslist': draw(st.booleans())}
-    c = draw(gens.cells())
+    c = draw(gens.cells(scaled=True))
     pts = draw(gens.relpoints(1, 8, lo=-1.0, hi=2.0, special=False))
     return {'cell': c, 'rel': pts, 'dyadic': False, 'inclusive': draw(st.booleans()), 'aslist': draw(st.booleans())}
 
@@ -306,10 +306,11 @@ def cache_cases(draw):
     n = draw(st.integers(2, 6))
     ops = []
     for _ in range(n):
-        c = draw(gens.cells(rotated=False))
         kind = draw(st.sampled_from(['vects=', 'origin=', 'set_vectors', 'set_abc', 'set_lengths', 'set_hi_los', 'set(vects)', 'set(origin)']))
+        # setters that take arbitrary vectors also get rigidly rotated cells (all nine components non-zero)
+        c = draw(gens.cells(rotated=kind in ('vects=', 'set_vectors', 'set(vects)'), scaled=True))
         ops.append({'op': kind, 'cell': c, 'touch': draw(st.booleans())})
-    return {'start': draw(gens.cells(rotated=False)), 'ops': ops, 'probe': draw(gens.relpoints(1, 1))[0]}
+    return {'start': draw(gens.cells(rotated=True, scaled=True)), 'ops': ops, 'probe': draw(gens.relpoints(1, 1))[0]}
 
 
 def oracle_cache(case):
